@@ -54,3 +54,13 @@ func VerifSimSeed(seed uint64) {
 func VerifSimPos() (uint64, uint64, uint64) {
 	return atomic.Load64(&verifRandState), atomic.Load64(&verifSelState), atomic.Load64(&verifTimerState)
 }
+
+// VerifYield is runtime.Gosched with the goroutine re-queued at the tail of
+// the LOCAL run queue. Gosched uses the global queue, which the scheduler
+// polls every 61st scheduling tick; background goroutines of the runtime that
+// wake up on real time shift that phase, and with it the order in which yielded
+// goroutines come back - one seed was then no longer one execution on a loaded
+// machine.
+func VerifYield() {
+	goyield()
+}
